@@ -8,4 +8,16 @@ META = {
         "note": "Trusts the harness model (60 lines) and rapid. The age trigger is wall-clock driven; flushes it causes are accepted, not required.",
         "technique": "property-based testing (rapid), stateful model-based oracle",
     },
+    "C16": {
+        "text": "The real ChannelMapping is explored with random offer sequences for all count pairs 0..6 and exhaustively for counts 1..3 with sequences up to length 5/6, checking function/stability/quota/totality on public queries only. The exhaustive part is complete for its bound; larger counts are sampled.",
+        "design_ref": "DESIGN.md section 4 C16",
+        "note": "Layer 1 covers the quota check in ChannelMapping through the manager's direct-assignment protocol restated in the harness; the manager's wait/forward path is covered by the reader harness where registered.",
+        "technique": "property-based testing (rapid) + bounded exhaustive enumeration, invariant oracle",
+    },
+    "C17": {
+        "text": "Stateful model-based exploration of the real ReplicateMeteImpl: after every generated report/remove/reload step the JSON store, the in-memory view and a set-union model must agree. Found and led to two fix: commits (merged shards not kept in memory; partition messages not removed).",
+        "design_ref": "DESIGN.md section 4 C17",
+        "note": "Store fake = map with JSON round trip (same encoding as the etcd/MySQL replicate stores). Concurrency of reports is not explored (the implementation serialises on one mutex).",
+        "technique": "property-based testing (rapid), stateful model-based oracle",
+    },
 }
